@@ -33,6 +33,8 @@ type ConnSet struct {
 	Conns []*LConn
 	First string
 	nOpen int
+	// KeySpan is how many accept indexes of a target an application must be able to recognise.
+	KeySpan int
 }
 
 func NewConnSet(r *Run, w *World, first string, conns []*LConn) *ConnSet {
@@ -59,7 +61,11 @@ func NewConnSet(r *Run, w *World, first string, conns []*LConn) *ConnSet {
 
 func (cs *ConnSet) tgtKeys(ti int) []Candidate {
 	var ks []Candidate
-	for j := 0; j < len(cs.Conns)+4; j++ {
+	span := cs.KeySpan
+	if span == 0 {
+		span = len(cs.Conns) + 4
+	}
+	for j := 0; j < span; j++ {
 		ks = append(ks, TargetKey(cs.R.Seed, cs.W.Targets[ti].Index, j))
 	}
 	return ks
@@ -252,3 +258,18 @@ func isClientCarrierLink(w *World, ls simrt.LinkState) bool {
 
 func hasSuffix(s, suf string) bool { return len(s) >= len(suf) && s[len(s)-len(suf):] == suf }
 func hasPrefix(s, pre string) bool { return len(s) >= len(pre) && s[:len(pre)] == pre }
+
+// ClientCarrierConns returns the client-side endpoints of the physical stream carrier(s).
+func ClientCarrierConns(w *World) []*simrt.Conn {
+	var out []*simrt.Conn
+	states := map[int]simrt.LinkState{}
+	for _, ls := range w.R.Net.LinkStates() {
+		states[ls.ID] = ls
+	}
+	for _, cn := range w.R.Net.Conns() {
+		if ls, ok := states[cn.Out().ID]; ok && isClientCarrierLink(w, ls) {
+			out = append(out, cn)
+		}
+	}
+	return out
+}
